@@ -83,6 +83,7 @@ fn main() {
     let mut per_action: BTreeMap<String, usize> = BTreeMap::new();
     let mut outcomes: BTreeSet<String> = BTreeSet::new();
     let mut samples: Vec<Value> = vec![];
+    let mut stray_reports: Vec<Mismatch> = vec![];
     for h in 0..histories {
         let tmp = tempfile::tempdir_in(&scratch).unwrap();
         let layers_dir = tmp.path().join("layers");
@@ -207,6 +208,10 @@ fn main() {
                 o.calls = calls;
             }
             let (l, rf) = snapshot(&refs);
+            let st = strays(&layers_dir, &names);
+            if !st.is_empty() && stray_reports.len() < 5 {
+                stray_reports.push(Mismatch { signature: format!("{} leaves entries outside any layer", o.act), detail: format!("after {} on {:?}: unexpected entries {st:?} directly below <layers>", o.act, o.n), case: json!({"obs": o}) });
+            }
             *per_action.entry(o.act.clone()).or_default() += 1;
             outcomes.insert(format!("{}|{}|{}|{}|{}", o.act, o.ret.kind, o.ret.cause, o.strat.k, o.mig.k));
             let mut ev = json!({"obs": o, "L": l, "refs": rf, "history": h});
@@ -227,6 +232,7 @@ fn main() {
     s.evaluations = total;
     s.distinct_nontrivial = outcomes.len();
     s.samples = samples;
+    s.mismatches = stray_reports;
     s.extra.insert("per_action".into(), json!(per_action));
     s.extra.insert("histories".into(), json!(histories));
     s.print();
